@@ -1030,19 +1030,402 @@ fn dispatch<C: CI>(op: Op, a: &[&[u8]]) -> R<Vec<Vec<u8>>> {
     }
 }
 
+
+// ------------------------------------------------------------------------------------------------------------------
+// Alternative public routes. A deployment is not made of parties that all call the struct-level methods: some are
+// built on the scheme traits (`BlsSignatureBasic::sign`, `BlsSignCrypt::unseal_with_shares`, `BlsElGamal::seal_scalar`
+// with explicit generator / blinder, ...), on `BlsSignature::<C>`'s constructors, or on sibling conversions. For every
+// operation that has one, `dispatch_alt` performs the SAME operation through such a route; `None` = this operation has
+// no alternative route for these arguments (the caller falls back to the struct-level route). `route` (>= 1) selects
+// among several alternatives where there are some. Whatever an oracle demands of the struct-level result it demands
+// of these results too: they are public API for the same thing.
+// ------------------------------------------------------------------------------------------------------------------
+type PkPt<C> = <C as Pairing>::PublicKey;
+type SigPt<C> = <C as Pairing>::Signature;
+type Sc<C> = <<C as Pairing>::PublicKey as blsful::inner_types::Group>::Scalar;
+
+fn dst_of<C: CI>(s: SignatureSchemes) -> &'static [u8] {
+    match s {
+        SignatureSchemes::Basic => <C as BlsSignatureBasic>::DST,
+        SignatureSchemes::MessageAugmentation => <C as BlsSignatureMessageAugmentation>::DST,
+        SignatureSchemes::ProofOfPossession => <C as BlsSignaturePop>::SIG_DST,
+    }
+}
+fn sig_parts<C: CI>(s: &Signature<C>) -> (SignatureSchemes, SigPt<C>) {
+    match s {
+        Signature::Basic(p) => (SignatureSchemes::Basic, *p),
+        Signature::MessageAugmentation(p) => (SignatureSchemes::MessageAugmentation, *p),
+        Signature::ProofOfPossession(p) => (SignatureSchemes::ProofOfPossession, *p),
+    }
+}
+fn sig_wrap<C: CI>(s: SignatureSchemes, p: SigPt<C>) -> Signature<C> {
+    match s {
+        SignatureSchemes::Basic => Signature::Basic(p),
+        SignatureSchemes::MessageAugmentation => Signature::MessageAugmentation(p),
+        SignatureSchemes::ProofOfPossession => Signature::ProofOfPossession(p),
+    }
+}
+fn trait_verify<C: CI>(s: SignatureSchemes, pk: PkPt<C>, sig: SigPt<C>, msg: &[u8]) -> BlsResult<()> {
+    match s {
+        SignatureSchemes::Basic => <C as BlsSignatureBasic>::verify(pk, sig, msg),
+        SignatureSchemes::MessageAugmentation => <C as BlsSignatureMessageAugmentation>::verify(pk, sig, msg),
+        SignatureSchemes::ProofOfPossession => <C as BlsSignaturePop>::verify(pk, sig, msg),
+    }
+}
+fn choice_ok<T: Into<bool>>(c: T) -> R<Vec<Vec<u8>>> {
+    if c.into() {
+        Ok(vec![])
+    } else {
+        Err("alt: not valid".into())
+    }
+}
+fn own_rng() -> ChaCha20Rng {
+    // the caller's own generator, seeded from the operating system like the library's
+    ChaCha20Rng::from_entropy()
+}
+
+fn dispatch_alt<C: CI>(op: Op, a: &[&[u8]], route: u8) -> R<Option<Vec<Vec<u8>>>> {
+    use blsful::inner_types::{Field, Group};
+    let some = |v: Vec<Vec<u8>>| -> R<Option<Vec<Vec<u8>>>> { Ok(Some(v)) };
+    match op {
+        Op::KeyFromHash => some(vec![Vec::from(&BlsSignature::<C>::secret_key_from_hash(arg(a, 0)?))]),
+        Op::KeyRandomSeeded => some(vec![Vec::from(&BlsSignature::<C>::random_secret_key(ChaCha20Rng::from_seed(seed32(arg(a, 0)?)?)))]),
+        Op::KeyNew => match route % 2 {
+            0 => some(vec![Vec::from(&BlsSignature::<C>::new_secret_key())]),
+            _ => some(vec![Vec::from(&SecretKey::<C>::random(own_rng()))]),
+        },
+        Op::ChallengeNew => match route % 2 {
+            0 => some(vec![Vec::from(&BlsSignature::<C>::new_proof_challenge())]),
+            _ => some(vec![Vec::from(&ProofCommitmentChallenge::<C>::random(own_rng()))]),
+        },
+        Op::PublicKey => match route % 2 {
+            0 => some(vec![Vec::from(&PublicKey::<C>(<C as BlsSignatureCore>::public_key(&sk_lenient::<C>(arg(a, 0)?)?.0)))]),
+            _ => some(vec![Vec::from(&PublicKey::<C>::from(&sk_lenient::<C>(arg(a, 0)?)?))]),
+        },
+        Op::Sign => {
+            let sk = sk_lenient::<C>(arg(a, 0)?)?;
+            let msg = arg(a, 2)?;
+            let s = scheme_of(arg(a, 1)?)?;
+            let p = match s {
+                SignatureSchemes::Basic => <C as BlsSignatureBasic>::sign(&sk.0, msg),
+                SignatureSchemes::MessageAugmentation => <C as BlsSignatureMessageAugmentation>::sign(&sk.0, msg),
+                SignatureSchemes::ProofOfPossession => <C as BlsSignaturePop>::sign(&sk.0, msg),
+            }
+            .map_err(e)?;
+            some(vec![Vec::from(&sig_wrap::<C>(s, p))])
+        }
+        Op::Verify => {
+            let sig = Signature::<C>::try_from(arg(a, 0)?).map_err(e)?;
+            let pk = PublicKey::<C>::try_from(arg(a, 1)?).map_err(e)?;
+            let (s, p) = sig_parts(&sig);
+            trait_verify::<C>(s, pk.0, p, arg(a, 2)?).map_err(e)?;
+            some(vec![])
+        }
+        Op::Pop => some(vec![Vec::from(&ProofOfPossession::<C>(<C as BlsSignaturePop>::pop_prove(&sk_lenient::<C>(arg(a, 0)?)?.0).map_err(e)?))]),
+        Op::PopVerify => {
+            let pop = ProofOfPossession::<C>::try_from(arg(a, 0)?).map_err(e)?;
+            let pk = PublicKey::<C>::try_from(arg(a, 1)?).map_err(e)?;
+            <C as BlsSignaturePop>::pop_verify(pk.0, pop.0).map_err(e)?;
+            some(vec![])
+        }
+        Op::Aggregate | Op::MultiSig => {
+            let sigs = many(a, 0, |b| Signature::<C>::try_from(b).map_err(e))?;
+            // the trait-level accumulators only add: the struct-level refusals (fewer than two, mixed schemes,
+            // augmentation in a multi-signature) have no counterpart there
+            if sigs.len() < 2 || !sigs.iter().all(|s| s.same_scheme(&sigs[0])) {
+                return Ok(None);
+            }
+            let (s0, _) = sig_parts(&sigs[0]);
+            if op == Op::MultiSig && s0 == SignatureSchemes::MessageAugmentation {
+                return Ok(None);
+            }
+            let pts = sigs.iter().map(|s| sig_parts(s).1);
+            let sum = if op == Op::MultiSig && route % 2 == 0 { <C as BlsMultiSignature>::from_signatures(pts) } else { <C as BlsSignatureCore>::aggregate_signatures(pts) };
+            if op == Op::Aggregate {
+                some(vec![Vec::from(&match s0 {
+                    SignatureSchemes::Basic => AggregateSignature::<C>::Basic(sum),
+                    SignatureSchemes::MessageAugmentation => AggregateSignature::<C>::MessageAugmentation(sum),
+                    SignatureSchemes::ProofOfPossession => AggregateSignature::<C>::ProofOfPossession(sum),
+                })])
+            } else {
+                some(vec![Vec::from(&match s0 {
+                    SignatureSchemes::Basic => MultiSignature::<C>::Basic(sum),
+                    SignatureSchemes::MessageAugmentation => MultiSignature::<C>::MessageAugmentation(sum),
+                    SignatureSchemes::ProofOfPossession => MultiSignature::<C>::ProofOfPossession(sum),
+                })])
+            }
+        }
+        Op::AggVerify => {
+            let agg = AggregateSignature::<C>::try_from(arg(a, 0)?).map_err(e)?;
+            let mut data: Vec<(PkPt<C>, Vec<u8>)> = Vec::new();
+            let mut i = 1;
+            while i + 1 < a.len() {
+                data.push((PublicKey::<C>::try_from(a[i]).map_err(e)?.0, a[i + 1].to_vec()));
+                i += 2;
+            }
+            match agg {
+                AggregateSignature::Basic(s) => <C as BlsSignatureBasic>::aggregate_verify(data.into_iter(), s),
+                AggregateSignature::MessageAugmentation(s) => <C as BlsSignatureMessageAugmentation>::aggregate_verify(data.into_iter(), s),
+                AggregateSignature::ProofOfPossession(s) => <C as BlsSignaturePop>::aggregate_verify(data.into_iter(), s),
+            }
+            .map_err(e)?;
+            some(vec![])
+        }
+        Op::MultiPk => {
+            let pks = many(a, 0, |b| PublicKey::<C>::try_from(b).map_err(e))?;
+            let p = match route % 3 {
+                0 => MultiPublicKey::<C>(<C as BlsMultiKey>::from_public_keys(pks.iter().map(|k| k.0))),
+                1 => MultiPublicKey::<C>::from(pks.as_slice()),
+                _ => MultiPublicKey::<C>(<C as BlsSignatureCore>::aggregate_public_keys(pks.iter().map(|k| k.0))),
+            };
+            some(vec![Vec::from(&p)])
+        }
+        Op::MultiVerify => {
+            let ms = MultiSignature::<C>::try_from(arg(a, 0)?).map_err(e)?;
+            let mpk = MultiPublicKey::<C>::try_from(arg(a, 1)?).map_err(e)?;
+            let (s, p) = match ms {
+                MultiSignature::Basic(p) => (SignatureSchemes::Basic, p),
+                MultiSignature::MessageAugmentation(p) => (SignatureSchemes::MessageAugmentation, p),
+                MultiSignature::ProofOfPossession(p) => (SignatureSchemes::ProofOfPossession, p),
+            };
+            match route % 2 {
+                // "verification = ordinary verification against the accumulated key": the sibling types
+                0 => sig_wrap::<C>(s, p).verify(&PublicKey::<C>(mpk.0), arg(a, 2)?),
+                _ => trait_verify::<C>(s, mpk.0, p, arg(a, 2)?),
+            }
+            .map_err(e)?;
+            some(vec![])
+        }
+        Op::SharePk => {
+            let s = SecretKeyShare::<C>::try_from(arg(a, 0)?).map_err(e)?;
+            some(vec![Vec::from(&PublicKeyShare::<C>(<C as BlsSignatureCore>::public_key_share(&s.0).map_err(e)?))])
+        }
+        Op::ShareSign => {
+            let s = SecretKeyShare::<C>::try_from(arg(a, 0)?).map_err(e)?;
+            let msg = arg(a, 2)?;
+            match scheme_of(arg(a, 1)?)? {
+                SignatureSchemes::Basic => some(vec![Vec::from(&SignatureShare::<C>::Basic(<C as BlsSignatureBasic>::partial_sign(&s.0, msg).map_err(e)?))]),
+                SignatureSchemes::ProofOfPossession => some(vec![Vec::from(&SignatureShare::<C>::ProofOfPossession(<C as BlsSignaturePop>::partial_sign(&s.0, msg).map_err(e)?))]),
+                SignatureSchemes::MessageAugmentation => Ok(None),
+            }
+        }
+        Op::PkShareVerify | Op::SigShareVerify => {
+            let (pi, si) = if op == Op::PkShareVerify { (0, 1) } else { (1, 0) };
+            let p = PublicKeyShare::<C>::try_from(arg(a, pi)?).map_err(e)?;
+            let s = SignatureShare::<C>::try_from(arg(a, si)?).map_err(e)?;
+            let msg = arg(a, 2)?;
+            match s {
+                SignatureShare::Basic(inner) => <C as BlsSignatureBasic>::partial_verify(p.0, inner, msg),
+                SignatureShare::ProofOfPossession(inner) => <C as BlsSignaturePop>::partial_verify(p.0, inner, msg),
+                SignatureShare::MessageAugmentation(_) => return Ok(None),
+            }
+            .map_err(e)?;
+            some(vec![])
+        }
+        Op::SigFromShares => {
+            let s = many(a, 0, |b| SignatureShare::<C>::try_from(b).map_err(e))?;
+            if s.is_empty() || !s.iter().all(|x| x.same_scheme(&s[0])) {
+                return Ok(None);
+            }
+            let pts: Vec<_> = s.iter().map(|x| *x.as_raw_value()).collect();
+            let sig = <C as BlsSignatureCore>::core_combine_signature_shares(&pts).map_err(e)?;
+            some(vec![Vec::from(&match s[0] {
+                SignatureShare::Basic(_) => Signature::<C>::Basic(sig),
+                SignatureShare::MessageAugmentation(_) => Signature::<C>::MessageAugmentation(sig),
+                SignatureShare::ProofOfPossession(_) => Signature::<C>::ProofOfPossession(sig),
+            })])
+        }
+        Op::PkFromShares => {
+            let s = many(a, 0, |b| PublicKeyShare::<C>::try_from(b).map_err(e))?;
+            let pts: Vec<_> = s.iter().map(|x| x.0).collect();
+            some(vec![Vec::from(&PublicKey::<C>(<C as BlsSignatureCore>::core_combine_public_key_shares(&pts).map_err(e)?))])
+        }
+        Op::DkFromShares => {
+            let s = many(a, 0, |b| SignDecryptionShare::<C>::try_from(b).map_err(e))?;
+            let pts: Vec<_> = s.iter().map(|x| x.0).collect();
+            some(vec![Vec::from(&SignCryptDecryptionKey::<C>(<C as BlsSignatureCore>::core_combine_public_key_shares(&pts).map_err(e)?))])
+        }
+        Op::EgDkFromShares => {
+            let s = many(a, 0, |b| ElGamalDecryptionShare::<C>::try_from(b).map_err(e))?;
+            let pts: Vec<_> = s.iter().map(|x| x.0).collect();
+            some(vec![Vec::from(&ElGamalDecryptionKey::<C>(<C as BlsSignatureCore>::core_combine_public_key_shares(&pts).map_err(e)?))])
+        }
+        Op::PokCommit => {
+            let sig = Signature::<C>::try_from(arg(a, 1)?).map_err(e)?;
+            let (s, _) = sig_parts(&sig);
+            let (u, x) = <C as BlsSignatureProof>::generate_commitment(arg(a, 0)?, dst_of::<C>(s)).map_err(e)?;
+            let c = match s {
+                SignatureSchemes::Basic => ProofCommitment::<C>::Basic(u),
+                SignatureSchemes::MessageAugmentation => ProofCommitment::<C>::MessageAugmentation(u),
+                SignatureSchemes::ProofOfPossession => ProofCommitment::<C>::ProofOfPossession(u),
+            };
+            some(vec![Vec::from(&c), Vec::from(&ProofCommitmentSecret::<C>(x))])
+        }
+        Op::PokFinalize => {
+            let c = ProofCommitment::<C>::try_from(arg(a, 0)?).map_err(e)?;
+            let x = secret_lenient::<C>(arg(a, 1)?)?;
+            let y = chal_lenient::<C>(arg(a, 2)?)?;
+            let sig = Signature::<C>::try_from(arg(a, 3)?).map_err(e)?;
+            let (ss, sp) = sig_parts(&sig);
+            let (cs, u) = match c {
+                ProofCommitment::Basic(u) => (SignatureSchemes::Basic, u),
+                ProofCommitment::MessageAugmentation(u) => (SignatureSchemes::MessageAugmentation, u),
+                ProofCommitment::ProofOfPossession(u) => (SignatureSchemes::ProofOfPossession, u),
+            };
+            if cs != ss {
+                return Ok(None);
+            }
+            let (u, v) = <C as BlsSignatureProof>::generate_proof(u, x.0, y.0, sp).map_err(e)?;
+            some(vec![Vec::from(&match cs {
+                SignatureSchemes::Basic => ProofOfKnowledge::<C>::Basic { u, v },
+                SignatureSchemes::MessageAugmentation => ProofOfKnowledge::<C>::MessageAugmentation { u, v },
+                SignatureSchemes::ProofOfPossession => ProofOfKnowledge::<C>::ProofOfPossession { u, v },
+            })])
+        }
+        Op::PokVerify | Op::PokTsVerify => {
+            let pk = PublicKey::<C>::try_from(arg(a, 1)?).map_err(e)?;
+            let msg = arg(a, 2)?;
+            let parts = |p: &ProofOfKnowledge<C>| match p {
+                ProofOfKnowledge::Basic { u, v } => (SignatureSchemes::Basic, *u, *v),
+                ProofOfKnowledge::MessageAugmentation { u, v } => (SignatureSchemes::MessageAugmentation, *u, *v),
+                ProofOfKnowledge::ProofOfPossession { u, v } => (SignatureSchemes::ProofOfPossession, *u, *v),
+            };
+            if op == Op::PokVerify {
+                let p = ProofOfKnowledge::<C>::try_from(arg(a, 0)?).map_err(e)?;
+                let y = chal_lenient::<C>(arg(a, 3)?)?;
+                let (s, u, v) = parts(&p);
+                <C as BlsSignatureProof>::verify(u, v, pk.0, y.0, msg, dst_of::<C>(s)).map_err(e)?;
+            } else {
+                let p = ProofOfKnowledgeTimestamp::<C>::try_from(arg(a, 0)?).map_err(e)?;
+                let t = arg(a, 3)?;
+                let timeout = if t.is_empty() { None } else { Some(u64_of(t)?) };
+                let (s, u, v) = parts(&p.proof);
+                let _w = simtypes::Working::begin();
+                <C as BlsSignatureProof>::verify_timestamp_proof(u, v, pk.0, p.timestamp, timeout, msg, dst_of::<C>(s)).map_err(e)?;
+            }
+            some(vec![])
+        }
+        Op::PokTsGenerate => {
+            let sig = Signature::<C>::try_from(arg(a, 1)?).map_err(e)?;
+            let (s, sp) = sig_parts(&sig);
+            let (u, v, timestamp) = <C as BlsSignatureProof>::generate_timestamp_proof(arg(a, 0)?, dst_of::<C>(s), sp).map_err(e)?;
+            let proof = match s {
+                SignatureSchemes::Basic => ProofOfKnowledge::<C>::Basic { u, v },
+                SignatureSchemes::MessageAugmentation => ProofOfKnowledge::<C>::MessageAugmentation { u, v },
+                SignatureSchemes::ProofOfPossession => ProofOfKnowledge::<C>::ProofOfPossession { u, v },
+            };
+            some(vec![Vec::from(&ProofOfKnowledgeTimestamp::<C> { proof, timestamp })])
+        }
+        Op::SignCrypt => {
+            let pk = PublicKey::<C>::try_from(arg(a, 0)?).map_err(e)?;
+            let scheme = scheme_of(arg(a, 1)?)?;
+            let (u, v, w) = <C as BlsSignCrypt>::seal(pk.0, arg(a, 2)?, dst_of::<C>(scheme));
+            some(vec![Vec::from(&SignCryptCiphertext::<C> { u, v, w, scheme })])
+        }
+        Op::ScValid => {
+            let ct = SignCryptCiphertext::<C>::try_from(arg(a, 0)?).map_err(e)?;
+            some(vec![flag(<C as BlsSignCrypt>::valid(ct.u, &ct.v, ct.w, dst_of::<C>(ct.scheme)).into())])
+        }
+        Op::ScDecrypt => {
+            let ct = SignCryptCiphertext::<C>::try_from(arg(a, 0)?).map_err(e)?;
+            let sk = sk_lenient::<C>(arg(a, 1)?)?;
+            some(ctopt(<C as BlsSignCrypt>::unseal(ct.u, &ct.v, ct.w, &sk.0, dst_of::<C>(ct.scheme)).into()))
+        }
+        Op::DkDecrypt => {
+            let dk = SignCryptDecryptionKey::<C>::try_from(arg(a, 0)?).map_err(e)?;
+            let ct = SignCryptCiphertext::<C>::try_from(arg(a, 1)?).map_err(e)?;
+            let ok = <C as BlsSignCrypt>::valid(ct.u, &ct.v, ct.w, dst_of::<C>(ct.scheme));
+            some(ctopt(<C as BlsSignCrypt>::decrypt(&ct.v, dk.0, ok).into()))
+        }
+        Op::DShareVerify => {
+            let d = SignDecryptionShare::<C>::try_from(arg(a, 0)?).map_err(e)?;
+            let p = PublicKeyShare::<C>::try_from(arg(a, 1)?).map_err(e)?;
+            let ct = SignCryptCiphertext::<C>::try_from(arg(a, 2)?).map_err(e)?;
+            let share: PkPt<C> = vsss_rs::Share::as_group_element(&d.0).map_err(e)?;
+            let pk: PkPt<C> = vsss_rs::Share::as_group_element(&p.0).map_err(e)?;
+            choice_ok(<C as BlsSignCrypt>::verify_share(share, pk, ct.u, &ct.v, ct.w, dst_of::<C>(ct.scheme))).map(Some)
+        }
+        Op::ScDecryptShares => {
+            let ct = SignCryptCiphertext::<C>::try_from(arg(a, 0)?).map_err(e)?;
+            let ds = many(a, 1, |b| SignDecryptionShare::<C>::try_from(b).map_err(e))?;
+            let inner: Vec<_> = ds.iter().map(|s| s.0).collect();
+            some(ctopt(<C as BlsSignCrypt>::unseal_with_shares(ct.u, &ct.v, ct.w, &inner, dst_of::<C>(ct.scheme)).into()))
+        }
+        Op::TimeLock => {
+            let pk = PublicKey::<C>::try_from(arg(a, 0)?).map_err(e)?;
+            let scheme = scheme_of(arg(a, 1)?)?;
+            let (msg, id) = (arg(a, 2)?, arg(a, 3)?);
+            let (u, v, w) = if scheme == SignatureSchemes::MessageAugmentation {
+                // the key's augmentation-scheme signature over `id` is a signature over pk || id
+                let mut aug = <C as BlsSignatureMessageAugmentation>::pk_bytes(pk.0, id.len());
+                aug.extend_from_slice(id);
+                <C as BlsTimeCrypt>::seal(pk.0, msg, &aug, dst_of::<C>(scheme))
+            } else {
+                <C as BlsTimeCrypt>::seal(pk.0, msg, id, dst_of::<C>(scheme))
+            }
+            .map_err(e)?;
+            some(vec![Vec::from(&TimeCryptCiphertext::<C> { u, v, w, scheme })])
+        }
+        Op::TlDecrypt => {
+            let ct = TimeCryptCiphertext::<C>::try_from(arg(a, 0)?).map_err(e)?;
+            let sig = Signature::<C>::try_from(arg(a, 1)?).map_err(e)?;
+            let (s, p) = sig_parts(&sig);
+            let out = if s == ct.scheme { <C as BlsTimeCrypt>::unseal(ct.u, &ct.v, &ct.w, p, 1u8.into()) } else { <C as BlsTimeCrypt>::unseal(ct.u, &ct.v, &ct.w, SigPt::<C>::default(), 0u8.into()) };
+            some(ctopt(out.into()))
+        }
+        Op::EgEncrypt => {
+            let pk = PublicKey::<C>::try_from(arg(a, 0)?).map_err(e)?;
+            let m = sk_lenient::<C>(arg(a, 1)?)?;
+            let mut rng = own_rng();
+            let (c1, c2) = match route % 3 {
+                0 => <C as BlsElGamal>::seal_scalar(pk.0, m.0, Some(<C as BlsElGamal>::message_generator()), Some(Sc::<C>::random(&mut rng)), &mut rng),
+                1 => <C as BlsElGamal>::seal_point(pk.0, <C as BlsElGamal>::message_generator() * m.0, None, &mut rng),
+                _ => <C as BlsElGamal>::seal_scalar(pk.0, m.0, None, None, &mut rng),
+            }
+            .map_err(e)?;
+            some(vec![Vec::from(&ElGamalCiphertext::<C> { c1, c2 })])
+        }
+        Op::EgEncryptProof => {
+            let pk = PublicKey::<C>::try_from(arg(a, 0)?).map_err(e)?;
+            let m = sk_lenient::<C>(arg(a, 1)?)?;
+            let mut rng = own_rng();
+            let (gen, b) = match route % 3 {
+                0 => (Some(<C as BlsElGamal>::message_generator()), Some(Sc::<C>::random(&mut rng))),
+                1 => (None, Some(Sc::<C>::random(&mut rng))),
+                _ => (Some(<C as BlsElGamal>::message_generator()), None),
+            };
+            let (c1, c2, message_proof, blinder_proof, challenge) = <C as BlsElGamal>::seal_scalar_with_proof(pk.0, m.0, gen, b, &mut rng).map_err(e)?;
+            some(vec![Vec::from(&ElGamalProof::<C> { ciphertext: ElGamalCiphertext { c1, c2 }, message_proof, blinder_proof, challenge })])
+        }
+        Op::EgDecrypt => {
+            let ct = ElGamalCiphertext::<C>::try_from(arg(a, 0)?).map_err(e)?;
+            let sk = sk_lenient::<C>(arg(a, 1)?)?;
+            some(vec![pt(&<C as BlsElGamal>::decrypt(sk.0, ct.c1, ct.c2))])
+        }
+        Op::EgProofVerify => {
+            let p = ElGamalProof::<C>::try_from(arg(a, 0)?).map_err(e)?;
+            let pk = PublicKey::<C>::try_from(arg(a, 1)?).map_err(e)?;
+            let gen = if route % 2 == 0 { Some(<C as BlsElGamal>::message_generator()) } else { None };
+            <C as BlsElGamal>::verify_proof(pk.0, gen, p.ciphertext.c1, p.ciphertext.c2, p.message_proof, p.blinder_proof, p.challenge).map_err(e)?;
+            some(vec![])
+        }
+        Op::EgVerifyDecrypt => {
+            let p = ElGamalProof::<C>::try_from(arg(a, 0)?).map_err(e)?;
+            let sk = sk_lenient::<C>(arg(a, 1)?)?;
+            let gen = if route % 2 == 0 { Some(<C as BlsElGamal>::message_generator()) } else { None };
+            some(vec![pt(&<C as BlsElGamal>::verify_and_decrypt(sk.0, gen, p.ciphertext.c1, p.ciphertext.c2, p.message_proof, p.blinder_proof, p.challenge).map_err(e)?)])
+        }
+        _ => Ok(None),
+    }
+}
+
 pub struct Flavour(pub &'static str);
 
-impl Lib for Flavour {
-    fn name(&self) -> &'static str {
-        self.0
-    }
-    fn call(&self, g: Grp, op: Op, args: &[&[u8]]) -> Out {
+impl Flavour {
+    fn guarded(&self, f: impl FnOnce() -> R<Vec<Vec<u8>>>) -> Out {
         simtypes::take_panic();
         simtypes::set_in_facade(true);
-        let r = catch_unwind(AssertUnwindSafe(|| match g {
-            Grp::G1 => dispatch::<Bls12381G1Impl>(op, args),
-            Grp::G2 => dispatch::<Bls12381G2Impl>(op, args),
-        }));
+        let r = catch_unwind(AssertUnwindSafe(f));
         simtypes::set_in_facade(false);
         match r {
             Ok(Ok(v)) => Out::Ok(v),
@@ -1061,5 +1444,40 @@ impl Lib for Flavour {
                 Out::Panic(m)
             }
         }
+    }
+}
+
+impl Lib for Flavour {
+    fn name(&self) -> &'static str {
+        self.0
+    }
+    fn call(&self, g: Grp, op: Op, args: &[&[u8]]) -> Out {
+        self.guarded(|| match g {
+            Grp::G1 => dispatch::<Bls12381G1Impl>(op, args),
+            Grp::G2 => dispatch::<Bls12381G2Impl>(op, args),
+        })
+    }
+    /// `route` 0 = the struct-level methods; >= 1 = an alternative public route where the operation has one.
+    /// (The vendored pinned release is only ever driven through the struct-level methods.)
+    fn call_routed(&self, g: Grp, op: Op, args: &[&[u8]], route: u8) -> Out {
+        if route == 0 || self.0 == "pinned" {
+            return self.call(g, op, args);
+        }
+        self.guarded(|| {
+            let alt = match g {
+                Grp::G1 => dispatch_alt::<Bls12381G1Impl>(op, args, route)?,
+                Grp::G2 => dispatch_alt::<Bls12381G2Impl>(op, args, route)?,
+            };
+            match alt {
+                Some(v) => {
+                    simtypes::note_alt_route(op);
+                    Ok(v)
+                }
+                None => match g {
+                    Grp::G1 => dispatch::<Bls12381G1Impl>(op, args),
+                    Grp::G2 => dispatch::<Bls12381G2Impl>(op, args),
+                },
+            }
+        })
     }
 }
